@@ -51,10 +51,13 @@ import (
 	"os"
 	"runtime"
 	"slices"
+	"strings"
 	_ "unsafe"
 
 	"golang.org/x/tools/go/ssa"
 )
+
+type noopFn struct{ sig *types.Signature }
 
 type continuation int
 
@@ -423,6 +426,10 @@ func prepareCall(fr *frame, call *ssa.CallCommon) (fn value, args []value) {
 		// Interface method invocation.
 		recv := v.(iface)
 		if recv.t == nil {
+			if mp := call.Method.Pkg(); mp != nil && (strings.HasPrefix(mp.Path(), "go.opentelemetry.io/") || strings.HasPrefix(mp.Path(), "github.com/rs/zerolog")) {
+				// stubbed library: interface values of its types are nil; every method is a no-op
+				return noopFn{call.Method.Type().(*types.Signature)}, nil
+			}
 			panic("method invoked on nil interface")
 		}
 		if f := lookupMethod(fr.i, recv.t, call.Method); f == nil {
@@ -453,6 +460,19 @@ func call(i *interpreter, caller *frame, callpos token.Pos, fn value, args []val
 		return callSSA(i, caller, callpos, fn.Fn, args, fn.Env)
 	case *ssa.Builtin:
 		return callBuiltin(caller, callpos, fn, args)
+	case noopFn:
+		r := fn.sig.Results()
+		switch r.Len() {
+		case 0:
+			return nil
+		case 1:
+			return zero(r.At(0).Type())
+		}
+		t := make(tuple, r.Len())
+		for k := range t {
+			t[k] = zero(r.At(k).Type())
+		}
+		return t
 	}
 	panic(fmt.Sprintf("cannot call %T", fn))
 }
